@@ -64,7 +64,11 @@ def java_tlc(args, cwd=SPEC, env=None, timeout=3600, heap='3g', trace_mode=False
             ['-Xmx' + heap, '-Xss256m', '-XX:TieredStopAtLevel=1']
     if trace_mode:
         jopts.append('-Dtlc2.tool.queue.IStateQueue=StateDeque')
-    cmd = ['java'] + jopts + ['-cp', TLA_CP, 'tlc2.TLC'] + args
+    # TLC unpacks the standard modules into java.io.tmpdir on every run and leaves them there: give every run a
+    # temporary directory of its own and remove it afterwards (nothing is left under /tmp)
+    import tempfile, threading
+    tmpd = tempfile.mkdtemp(prefix='jtmp_', dir=ensure(os.path.join(OUT, 'work')))
+    cmd = ['java'] + jopts + ['-Djava.io.tmpdir=' + tmpd, '-cp', TLA_CP, 'tlc2.TLC'] + args
     e = dict(os.environ)
     e.pop('JAVA_TOOL_OPTIONS', None)
     if env:
@@ -73,6 +77,8 @@ def java_tlc(args, cwd=SPEC, env=None, timeout=3600, heap='3g', trace_mode=False
         p = subprocess.run(cmd, cwd=cwd, env=e, stdout=subprocess.PIPE, stderr=subprocess.STDOUT, timeout=timeout)
     except subprocess.TimeoutExpired:
         raise ToolError('TLC timed out: ' + ' '.join(args))
+    finally:
+        shutil.rmtree(tmpd, ignore_errors=True)
     return p.returncode, p.stdout.decode('utf-8', 'replace')
 
 
